@@ -17,8 +17,8 @@ theorem encodeMsg_parts (o : Opts) (s : EncState) (m : WMsg) :
     encodeMsg o s m = ((encodeMsgParts o s m).1,
       (match (encodeMsgParts o s m).2.1 with | some db => db | none => []) ++ (encodeMsgParts o s m).2.2) := by
   unfold encodeMsg encodeMsgParts
-  generalize (if o.compress = true then compressTs o.arch s.tsRef m else (s.tsRef, none)) = p
-  obtain ⟨tsRef', off⟩ := p
+  generalize (if o.compress = true then compressTs o.arch s.tsRef s.tsLast m else (s.tsRef, s.tsLast, none)) = p
+  obtain ⟨tsRef', tsLast', off⟩ := p
   cases off with
   | none =>
     simp only
@@ -283,12 +283,12 @@ theorem revert_exact : ∀ fs : List WField, (∃ f ∈ fs, (f.num == tsFieldNum
           List.drop_succ_cons, List.cons_append]
         rw [← revertTs] ; rw [h2]
 
-theorem compressed_has_ts (arch tsRef : Nat) (m : WMsg) (h : (compressTs arch tsRef m).2.isSome = true) :
+theorem compressed_has_ts (arch tsRef tsLast : Nat) (m : WMsg) (h : (compressTs arch tsRef tsLast m).2.2.isSome = true) :
     ∃ f ∈ m.fields, (f.num == tsFieldNum) = true := by
   unfold compressTs at h
   cases hfind : m.fields.find? (·.num == tsFieldNum) with
   | none =>
-    have : tsOf arch m = u32Invalid := by simp [tsOf, hfind]
+    have : encTsOf arch m = u32Invalid := by simp [encTsOf, hfind]
     simp [this] at h
   | some f => exact ⟨f, List.mem_of_find?_eq_some hfind, by have := List.find?_some hfind; simpa using this⟩
 
@@ -302,10 +302,10 @@ theorem dryMessage_eq (o : Opts) (s : EncState) (m : WMsg) :
   · simp only
     cases (encodeMsgParts o s m).2.1 <;> simp
   · simp only
-    by_cases hc : (o.compress && (compressTs o.arch s.tsRef m).2.isSome) = true
+    by_cases hc : (o.compress && (compressTs o.arch s.tsRef s.tsLast m).2.2.isSome) = true
     · rw [if_pos hc]
       simp only [Bool.and_eq_true] at hc
-      obtain ⟨ts, h1, h2⟩ := revert_exact m.fields (compressed_has_ts _ _ m hc.2)
+      obtain ⟨ts, h1, h2⟩ := revert_exact m.fields (compressed_has_ts _ _ _ m hc.2)
       rw [h1]; simp only [h2]
     · rw [if_neg hc]
 
